@@ -205,6 +205,6 @@ __CPROVER_ensures(theRHSType == eTypeUnknown ==> (g_ncalls == 0 && __CPROVER_ret
     ],
     mechanisms=['comparison of every pair of types (node-set operands: existential rule)'],
     assumptions=['getStringFromNode appends the string-value of the node to the string (units c13_stringvalue: string-value walks)',
-                 'the comparison functors are uninterpreted: the same pair of operands gives the same answer',
+                 'the comparison functors are uninterpreted here: the same pair of operands gives the same answer (what each functor computes: unit c02_nshelpers)',
                  'GetCachedString hands out an empty string (XPathExecutionContextDefault string cache, not under contract)'],
 )
